@@ -25,7 +25,7 @@ import coqio as C
 import gen_c02 as G
 
 PROP = "C02"
-RULE = ("function level: every array over {0,1,2,3} of length <= 7 (quick: <= 6 plus a seeded sample of length 7) x block size 1..8 and None; "
+RULE = ("function level: every array over {0,1,2,3} of length <= 7 x block size 1..8 and None (rlencode) and x n in {4, 2} (index_pixels, index_bins); "
         "random arrays of length 30..400 with run lengths placed around multiples of the block size x 6 block sizes in 1..50; malformed id "
         "streams (unsorted, negative, >= n). End to end: seeded recipes of 1..4 producing operations (create ordered/unordered/frame/dict, load "
         "coo/bg2, cload pairs, merge, coarsen, zoomify, scool; several collections per file) over 1..3 chromosomes, fixed and variable bins, "
@@ -129,57 +129,121 @@ def oracle_offsets(arr, n, got):
 
 
 # ------------------------------------------------------------- 1. function level
+MASK = (1 << 61) - 1
+HASH_PREAMBLE = (
+    "Definition hmask := 2305843009213693951.\n"
+    "Definition hz (l : list Z) : Z := fold_left (fun acc x => Z.land (acc * 1000003 + (x + 2)) hmask) l 7.\n"
+    "Definition hr (r : option rle) : Z := match r with None => -1 | Some (s, l, v) => hz (s ++ [-1] ++ l ++ [-1] ++ v) end.\n"
+    "Definition hl (o : option (list Z)) : Z := match o with None => -1 | Some l => hz l end.\n"
+    "Fixpoint batches {A} (n : nat) (fuel : nat) (l : list A) : list (list A) := match fuel with O => [] | S f => "
+    "match l with [] => [] | _ => firstn n l :: batches n f (skipn n l) end end.\n")
+
+
+def hz(l):
+    acc = 7
+    for x in l:
+        acc = (acc * 1000003 + (x + 2)) & MASK
+    return acc
+
+
+def hr(r):
+    """hash of an encoder result; refusals/crashes hash to -1 / a value no model hash can take"""
+    if r == "error:ValueError":
+        return -1
+    if not isinstance(r, tuple):
+        return -2
+    return hz(list(r[0]) + [-1] + list(r[1]) + [-1] + list(r[2]))
+
+
+def hl(r):
+    if not isinstance(r, list):
+        return -2
+    return hz(r)
+
+
+# Printing numerals is by far the most expensive thing coqc does in this run (~1-3 ms each), so the
+# model prints one 61-bit hash per batch of cases; implementation results are hashed the same way
+# and only batches whose hashes differ are re-evaluated case by case with full outputs.
+SMALL_OBS = ("Definition obs (a : list Z) : Z := hz [hr (rlencode a None); "
+             "(if forallb (fun c => rle_opt_eqb (rlencode a (Some c)) (rlencode a None)) " + "[1; 2; 3; 4; 5; 6; 7; 8]" + " then 1 else 0); "
+             "hl (index_pixels a 4 (zlen a)); hl (index_bins a 4 (zlen a)); hl (index_pixels a 2 (zlen a + 3))].\n"
+             "Fixpoint all_arrays (L : nat) : list (list Z) := match L with O => [[]] | S k => "
+             "flat_map (fun v => map (cons v) (all_arrays k)) [0; 1; 2; 3] end.\n")
+SMALL_BATCH = 64
+
+
+def small_impl(a):
+    """everything the implementation says about one small array"""
+    one = impl_rlencode(a, None)
+    blocks = {c: impl_rlencode(a, c) for c in BLOCKS}
+    ip4 = impl_index_pixels(a, 4, len(a))
+    ib4 = impl_index_bins(a, 4, len(a))
+    ip2 = impl_index_pixels(a, 2, len(a) + 3)
+    return one, blocks, ip4, ib4, ip2
+
+
+def small_hash(res):
+    one, blocks, ip4, ib4, ip2 = res
+    same = 1 if all(blocks[c] == one for c in BLOCKS) else 0
+    return hz([hr(one), same, hl(ip4), hl(ib4), hl(ip2)])
+
+
 def fn_level(ctx):
     thorough = ctx.tier == "thorough"
     rng = ctx.rng
     arrays = []
-    full = 7 if thorough else 6
-    for L in range(0, full + 1):
+    for L in range(0, 8):
         arrays += [list(a) for a in itertools.product(range(4), repeat=L)]
-    if not thorough:
-        all7 = list(itertools.product(range(4), repeat=7))
-        arrays += [list(a) for a in rng.sample(all7, 2500)]
-        # sorted arrays of length 7 are the ones the index builders meet: take all of them
-        arrays += [list(a) for a in itertools.combinations_with_replacement(range(4), 7) if list(a) not in arrays[-2500:]]
-    B = 64
-    batch = 150
-    exprs = []
-    for k in range(0, len(arrays), batch):
-        lit = C.lst([C.zl(a) for a in arrays[k:k + batch]])
-        exprs.append(
-            "map (fun a => (digest 64 (rlencode a None), "
-            "forallb (fun c => rle_opt_eqb (rlencode a (Some c)) (rlencode a None)) " + C.zl(BLOCKS) + ", "
-            "index_pixels a 4 (zlen a), index_bins a 4 (zlen a), index_pixels a 2 (zlen a + 3))) " + lit)
-    model = C.coq_eval(IMPORTS, exprs, tmpdir=ctx.tmp / "fn_small", shard=14, jobs=4)
-    flat = [x for blk in model for x in blk]
-    assert len(flat) == len(arrays)
-    for a, (mdig, msame, mip4, mib4, mip2) in zip(arrays, flat):
-        case = {"fn": "rlencode/index", "array": a}
-        nruns = sum(1 for k in range(len(a)) if k == 0 or a[k] != a[k - 1])
-        ctx.case(case, nontrivial=nruns >= 2, kind="fn:small")
-        one = impl_rlencode(a, None)
-        ctx.compare("rlencode(a, None)", case, digest(B, one), mdig)
-        if not oracle_rle(a, one):
-            ctx.fail({**case, "chunksize": None}, {"got": one}, None)
-        if not msame:
-            ctx.disagree("model: chunked encoder differs from one-shot encoder (contradicts rlencode_chunked_eq)", case, None, False)
-        for c in BLOCKS:
-            got = impl_rlencode(a, c)
-            ctx.compare(f"rlencode(a, {c})", {**case, "chunksize": c}, digest(B, got), mdig)
-            if got != one and not oracle_rle(a, got):
-                ctx.fail({**case, "chunksize": c}, {"got": got, "one_shot": one}, None)
-        ip4 = impl_index_pixels(a, 4, len(a))
-        ib4 = impl_index_bins(a, 4, len(a))
-        ip2 = impl_index_pixels(a, 2, len(a) + 3)
-        ctx.compare("index_pixels(a, 4, len)", case, ip4, model_opt_list(mip4))
-        ctx.compare("index_bins(a, 4, len)", case, ib4, model_opt_list(mib4))
-        ctx.compare("index_pixels(a, 2, len+3)", case, ip2, model_opt_list(mip2))
-        if all(a[k] <= a[k + 1] for k in range(len(a) - 1)):
-            if not oracle_offsets(a, 4, ip4):
-                ctx.fail({**case, "index": "pixels", "n": 4}, {"got": ip4}, None)
-            if not oracle_offsets(a, 4, ib4):
-                ctx.fail({**case, "index": "bins", "n": 4}, {"got": ib4}, None)
+    # the model enumerates the same arrays itself (itertools.product order: first position slowest)
+    groups = [(f"all_arrays {L}", 4 ** L) for L in range(0, 7)] + [(f"map (cons {v}) (all_arrays 6)", 4 ** 6) for v in range(4)]
+    exprs = [f"map (fun b => hz (map obs b)) (batches {SMALL_BATCH} {n} ({g}))" for g, n in groups]
+    model = C.coq_eval(IMPORTS, exprs, preamble=HASH_PREAMBLE + SMALL_OBS, tmpdir=ctx.tmp / "fn_small", shard=1, jobs=4)
+    pos = 0
+    suspects = []
+    for (g, n), mh in zip(groups, model):
+        grp = arrays[pos:pos + n]
+        pos += n
+        assert len(mh) == (n + SMALL_BATCH - 1) // SMALL_BATCH
+        for k, mhash in enumerate(mh):
+            batch = grp[k * SMALL_BATCH:(k + 1) * SMALL_BATCH]
+            results = [small_impl(a) for a in batch]
+            for a, res in zip(batch, results):
+                case = {"fn": "rlencode/index", "array": a}
+                nruns = sum(1 for i in range(len(a)) if i == 0 or a[i] != a[i - 1])
+                ctx.case(case, nontrivial=nruns >= 2, kind="fn:small")
+                one, blocks, ip4, ib4, ip2 = res
+                # property oracle, independent of the model
+                if not oracle_rle(a, one):
+                    ctx.fail({**case, "chunksize": None}, {"got": one}, None)
+                for c in BLOCKS:
+                    if blocks[c] != one and not oracle_rle(a, blocks[c]):
+                        ctx.fail({**case, "chunksize": c}, {"got": blocks[c], "one_shot": one}, None)
+                if all(a[i] <= a[i + 1] for i in range(len(a) - 1)):
+                    if not oracle_offsets(a, 4, ip4):
+                        ctx.fail({**case, "index": "pixels", "n": 4}, {"got": ip4}, None)
+                    if not oracle_offsets(a, 4, ib4):
+                        ctx.fail({**case, "index": "bins", "n": 4}, {"got": ib4}, None)
+            if hz([small_hash(r) for r in results]) != mhash:
+                suspects.append((batch, results))
+    assert pos == len(arrays)
     ctx.extra["fn_small_arrays"] = len(arrays)
+    ctx.extra["fn_small_batches_differing"] = len(suspects)
+    # drill down into (at most 6) differing batches, case by case with full outputs
+    for batch, results in suspects[:6]:
+        ex = [f"(rlencode {C.zl(a)} None, map (fun c => rlencode {C.zl(a)} (Some c)) {C.zl(BLOCKS)}, index_pixels {C.zl(a)} 4 (zlen {C.zl(a)}), "
+              f"index_bins {C.zl(a)} 4 (zlen {C.zl(a)}), index_pixels {C.zl(a)} 2 (zlen {C.zl(a)} + 3))" for a in batch]
+        full = C.coq_eval(IMPORTS, ex, tmpdir=ctx.tmp / "fn_small_drill", shard=32, jobs=4)
+        for a, res, (mone, mblocks, mip4, mib4, mip2) in zip(batch, results, full):
+            case = {"fn": "rlencode/index", "array": a}
+            one, blocks, ip4, ib4, ip2 = res
+            ctx.compare("rlencode(a, None)", case, one, model_rle(mone))
+            for c, mb in zip(BLOCKS, mblocks):
+                ctx.compare(f"rlencode(a, {c})", {**case, "chunksize": c}, blocks[c], model_rle(mb))
+            ctx.compare("index_pixels(a, 4, len)", case, ip4, model_opt_list(mip4))
+            ctx.compare("index_bins(a, 4, len)", case, ib4, model_opt_list(mib4))
+            ctx.compare("index_pixels(a, 2, len+3)", case, ip2, model_opt_list(mip2))
+    if suspects and not ctx.disagreements:
+        ctx.disagree("batch hash of the small scope differs but no single case does (hash plumbing)", {"fn": "rlencode/index"}, None, None)
 
     # refusals: chunksize <= 0 on a non-empty array raises ValueError; the empty array never does
     ref = [([], 0), ([], -1), ([], 3), ([1], 0), ([1, 1, 2], 0), ([0, 3], -1), ([2, 2], -5)]
@@ -202,28 +266,41 @@ def fn_level(ctx):
             v = v + rng.randint(1, 3) if rng.random() < 0.8 else rng.randint(0, 40)
         cs = sorted({c0, 1, rng.randint(1, 50), rng.randint(1, 50), len(a), len(a) + 1, max(1, len(a) - 1)})
         longs.append((a, cs))
-    exprs = [f"(rlencode {C.zl(a)} None, forallb (fun c => rle_opt_eqb (rlencode {C.zl(a)} (Some c)) (rlencode {C.zl(a)} None)) {C.zl(cs)}, "
-             f"index_pixels {C.zl(a)} {C.z(max(a) + 2)} (zlen {C.zl(a)}))" for a, cs in longs]
-    mlong = C.coq_eval(IMPORTS, exprs, tmpdir=ctx.tmp / "fn_long", shard=30, jobs=4)
-    for (a, cs), (mone, msame, mip) in zip(longs, mlong):
+
+    def long_full(a, cs):
+        return (f"(rlencode {C.zl(a)} None, map (fun c => rlencode {C.zl(a)} (Some c)) {C.zl(cs)}, "
+                f"index_pixels {C.zl(a)} {C.z(max(a) + 2)} (zlen {C.zl(a)}))")
+    exprs = [f"(let a := {C.zl(a)} in hz [hr (rlencode a None); hz (map (fun c => hr (rlencode a (Some c))) {C.zl(cs)}); "
+             f"hl (index_pixels a {C.z(max(a) + 2)} (zlen a))])" for a, cs in longs]
+    mlong = C.coq_eval(IMPORTS, exprs, preamble=HASH_PREAMBLE, tmpdir=ctx.tmp / "fn_long", shard=30, jobs=4)
+    drill = []
+    for (a, cs), mh in zip(longs, mlong):
         case = {"fn": "rlencode-long", "array": a, "chunksizes": cs}
         ctx.case(case, nontrivial=True, kind="fn:long")
         one = impl_rlencode(a, None)
-        ctx.compare("rlencode(long, None)", case, one, model_rle(mone))
-        if not oracle_rle(a, one):
-            ctx.fail({"fn": "rlencode/index", "array": a, "chunksize": None}, {"got": str(one)[:300]}, None)
-        if not msame:
-            ctx.disagree("model: chunked encoder differs from one-shot encoder", case, None, False)
-        for c in cs:
-            got = impl_rlencode(a, c)
-            ctx.compare(f"rlencode(long, {c})", {"fn": "rlencode/index", "array": a, "chunksize": c}, got, model_rle(mone))
-            if got != one and not oracle_rle(a, got):
-                ctx.fail({"fn": "rlencode/index", "array": a, "chunksize": c}, {"got": str(got)[:300]}, None)
+        blocks = [impl_rlencode(a, c) for c in cs]
         n = max(a) + 2
         ip = impl_index_pixels(a, n, len(a))
-        ctx.compare("index_pixels(long)", case, ip, model_opt_list(mip))
+        if not oracle_rle(a, one):
+            ctx.fail({"fn": "rlencode/index", "array": a, "chunksize": None}, {"got": str(one)[:300]}, None)
+        for c, got in zip(cs, blocks):
+            if got != one and not oracle_rle(a, got):
+                ctx.fail({"fn": "rlencode/index", "array": a, "chunksize": c}, {"got": str(got)[:300]}, None)
         if all(a[k] <= a[k + 1] for k in range(len(a) - 1)) and not oracle_offsets(a, n, ip):
             ctx.fail({"fn": "rlencode/index", "array": a, "index": "pixels", "n": n}, {"got": str(ip)[:300]}, None)
+        if hz([hr(one), hz([hr(b_) for b_ in blocks]), hl(ip)]) != mh:
+            drill.append((a, cs, one, blocks, ip))
+    ctx.extra["fn_long_differing"] = len(drill)
+    if drill:
+        full = C.coq_eval(IMPORTS, [long_full(a, cs) for a, cs, *_ in drill[:8]], tmpdir=ctx.tmp / "fn_long_drill", shard=4, jobs=4)
+        for (a, cs, one, blocks, ip), (mone, mblocks, mip) in zip(drill, full):
+            case = {"fn": "rlencode-long", "array": a, "chunksizes": cs}
+            ctx.compare("rlencode(long, None)", case, one, model_rle(mone))
+            for c, got, mb in zip(cs, blocks, mblocks):
+                ctx.compare(f"rlencode(long, {c})", {"fn": "rlencode/index", "array": a, "chunksize": c}, got, model_rle(mb))
+            ctx.compare("index_pixels(long)", case, ip, model_opt_list(mip))
+        if not ctx.disagreements:
+            ctx.disagree("hash of a long-array case differs but no output does (hash plumbing)", {"fn": "rlencode-long"}, None, None)
 
     # malformed id streams for the slice-assignment loop (python slice normalisation)
     mal = []
